@@ -5,6 +5,11 @@ d="$(cd "$(dirname "$0")/.." && pwd)"; cd "$d"
 tools/integrate.sh $1 | grep -v '^copied'
 for s in 1 2 3; do VERIF_SEED=$s ./check $1 --tier quick 2>&1 | grep -v '^KNOWN-FINDING' | tail -2; done
 VERIF_SEED=1 ./check $1 --tier quick 2>&1 | grep -c '^KNOWN-FINDING'
+# the root module imports every model / theorem file: two components declaring the same name only clash here (setup.sh builds it)
+python3 -c "
+import sys; sys.path.insert(0,'lib'); import verif
+ok,log=verif.lake_build([])
+print('full lake build:', 'ok' if ok else 'FAILED'); print('' if ok else log[-2500:])"
 python3 tools/mk_manifest.py 2>&1 | tail -1
 python3-vt -c "
 import json,jsonschema
